@@ -225,7 +225,12 @@ def check_sigma(prior, post, tau, limit, where):
             s0 = p[1]
             s1 = q[1]
             if not (isinstance(s1, (int, float)) and math.isfinite(s1) and s1 > 0):
-                raise Violation("C06", "C06/sigma_not_finite_positive", dict(where, team=i, player=j, prior=enc(s0), post=enc(s1)))
+                cls = "C06/sigma_not_finite_positive"
+                if isinstance(s1, float) and s1 != s1 and where.get("gamma") == "max":
+                    # a class of its own (known finding F4 is recorded against exactly this
+                    # one, per model, in known_findings.json)
+                    cls += ":nan_with_gamma_1e308"
+                raise Violation("C06", cls, dict(where, team=i, player=j, prior=enc(s0), post=enc(s1)))
             bound = math.sqrt(s0 * s0 + tau * tau)
             if s1 > bound * (1 + TOL):
                 raise Violation(
@@ -257,12 +262,28 @@ def reachable_ratings(obj, out=None, seen=None, depth=0):
         for k, x in obj.items():
             reachable_ratings(k, out, seen, depth + 1)
             reachable_ratings(x, out, seen, depth + 1)
-    elif hasattr(obj, "mu") and (hasattr(obj, "sigma") or hasattr(obj, "sigma_squared")):
+    elif _has(obj, "mu") and (_has(obj, "sigma") or _has(obj, "sigma_squared")):
         out.append(obj)
-        t = getattr(obj, "team", None)
+        t = _get(obj, "team")
         if t is not None:
             reachable_ratings(t, out, seen, depth + 1)
     return out
+
+
+def _get(obj, name):
+    """getattr for objects that may be hostile (an application record whose __getattr__ raises
+    KeyError): the harness must never trip over the things it injects."""
+    try:
+        return getattr(obj, name, None)
+    except Exception:
+        return None
+
+
+def _has(obj, name):
+    try:
+        return hasattr(obj, name)
+    except Exception:
+        return False
 
 
 def rating_digest(objs):
